@@ -793,21 +793,57 @@ func (st *spState) fresh() *saml2.SAMLServiceProvider {
 var signingOps = map[string]bool{"authn-doc": true, "authn-str": true, "logout-req": true, "logout-resp": true, "auth-url": true, "auth-url-redirect": true, "logout-url": true, "auth-post": true, "sign-el": true}
 var keyFields = map[string]bool{"encField": true, "encSetter": true, "sigField": true, "sigSetter": true}
 
+// c17EncryptedInputs lists the pool entries that carry an EncryptedAssertion.
+func c17EncryptedInputs() []int {
+	var out []int
+	for i, in := range c17Pool() {
+		raw, err := base64.StdEncoding.DecodeString(in)
+		if err == nil && strings.Contains(string(raw), "EncryptedAssertion") {
+			out = append(out, i)
+		}
+	}
+	return out
+}
+
 func genC17Reconf(t *rapid.T) C17Reconf {
+	// three families of histories: key rotation (no signing), validation-side re-configuration, everything
+	return genReconfFocus(t, rapid.SampledFrom([]string{"keys", "keys", "validation", "all"}).Draw(t, "focus"))
+}
+
+// genEncRotation / genSigRotation: histories that only rotate the decryption (signing) key and its validation
+// switch, run under C11 (C13) without the race detector and therefore with many more cases.
+func genEncRotation(t *rapid.T) C17Reconf { return genReconfFocus(t, "enc-keys") }
+func genSigRotation(t *rapid.T) C17Reconf { return genReconfFocus(t, "sig-keys") }
+
+func genReconfFocus(t *rapid.T, focus string) C17Reconf {
 	var c C17Reconf
-	validationOnly := rapid.Bool().Draw(t, "validationOnly")
+	fields, kinds := reconfFields, c17OpKinds
+	switch focus {
+	case "keys":
+		fields = []string{"sigField", "sigField", "sigSetter", "encField", "encField", "encSetter", "validateEnc", "clock"}
+		kinds = []string{"metadata", "metadata-slo", "signing-cert", "signing-cert", "validate", "validate", "retrieve"}
+	case "enc-keys":
+		fields = []string{"encField", "encField", "encSetter", "validateEnc", "clock"}
+		kinds = []string{"validate", "validate", "retrieve", "metadata"}
+	case "sig-keys":
+		fields = []string{"sigField", "sigField", "sigSetter", "clock"}
+		kinds = []string{"metadata", "metadata-slo", "signing-cert", "signing-cert"}
+	case "validation":
+		fields = []string{"clock", "clock", "store", "store", "encField", "encSetter", "validateEnc", "skip", "allowMissing", "acs", "issuer", "audience", "slo", "maxSize"}
+		kinds = []string{"validate", "validate", "retrieve", "retrieve", "logout-validate-req", "logout-validate-resp", "decode-base", "metadata"}
+	}
+	enc := c17EncryptedInputs()
 	n := rapid.IntRange(2, 10).Draw(t, "steps")
 	for i := 0; i < n; i++ {
 		s := C17Step{}
 		if rapid.IntRange(0, 3).Draw(t, "doReconf") != 0 {
-			s.Reconf = rapid.SampledFrom(reconfFields).Draw(t, "field")
+			s.Reconf = rapid.SampledFrom(fields).Draw(t, "field")
 			s.V = rapid.IntRange(0, 11).Draw(t, "value")
 		}
-		kinds := c17OpKinds
-		if validationOnly {
-			kinds = []string{"validate", "validate", "retrieve", "retrieve", "logout-validate-req", "logout-validate-resp", "decode-base", "metadata", "metadata-slo", "signing-cert"}
-		}
 		s.Op = C17Op{Kind: rapid.SampledFrom(kinds).Draw(t, "op"), Input: rapid.IntRange(0, 63).Draw(t, "input"), Arg: rapid.SampledFrom([]string{"", "a", "x&y"}).Draw(t, "arg"), Mut: rapid.Bool().Draw(t, "mutate")}
+		if focus != "all" && len(enc) > 0 && rapid.Bool().Draw(t, "encryptedInput") {
+			s.Op.Input = enc[rapid.IntRange(0, len(enc)-1).Draw(t, "whichEncrypted")]
+		}
 		c.Steps = append(c.Steps, s)
 	}
 	return c
@@ -845,3 +881,8 @@ func checkC17Reconf(c C17Reconf) h.Outcome {
 
 func TestC17_PReconf(t *testing.T)      { h.RunProp(t, "C17.reconf", genC17Reconf, checkC17Reconf) }
 func TestC17_ReplayReconf(t *testing.T) { h.RunReplay(t, "C17.reconf", checkC17Reconf) }
+
+func TestC11_PRotate(t *testing.T)      { h.RunProp(t, "C11.rotate", genEncRotation, checkC17Reconf) }
+func TestC11_ReplayRotate(t *testing.T) { h.RunReplay(t, "C11.rotate", checkC17Reconf) }
+func TestC13_PRotate(t *testing.T)      { h.RunProp(t, "C13.rotate", genSigRotation, checkC17Reconf) }
+func TestC13_ReplayRotate(t *testing.T) { h.RunReplay(t, "C13.rotate", checkC17Reconf) }
